@@ -85,6 +85,17 @@ func c08NameCheck(c c08Name, info *vlib.Info) *vlib.Failure {
 			}
 		}
 	}
+	if strings.HasPrefix(c.Name, "/") && !strings.Contains(c.Name, "\\") && c.Target == "file" {
+		// an absolute name must not be re-rooted at the including file's directory:
+		// plant a file where that mistake would find one
+		if target := filepath.Join(proj, c.Name); strings.HasPrefix(target, proj+string(filepath.Separator)) {
+			if _, err := os.Stat(target); err != nil {
+				_ = os.MkdirAll(filepath.Dir(target), 0o755)
+				_ = os.WriteFile(target, []byte("TYPE @inside\n{}\n"), 0o644)
+				info.Class("absolute-name-with-rerooted-target")
+			}
+		}
+	}
 	param := c.Name
 	if c.Quoted {
 		param = c17Quote(c.Name)
@@ -195,7 +206,7 @@ func TestC08(t *testing.T) {
 		"INCLUDE file names: every string up to the tier's length over {. / \\ a} (plus one position substituted by b, space or a quote; bare and quoted; target present, absent, directory, empty, dangling symlink) run end to end in a private tree with canary files outside the project directory, and every such string up to a larger bound against the name validator directly; generated documents cut into files in all the ways the property lists, compared with the unsplit document; negative include graphs; non-trivial = name holds a '.', or the split has an include at depth >= 2 or >= 2 includes; distinct by name / project hash",
 		"reading outside the project directory is observed through canary files (a read that is followed by a rejection is only visible to the strace arm)", "checks run as root: an unreadable target cannot be produced")
 	defer vlib.CleanupScratch()
-	h.Require("name:bad", "name:harmless", "target:file", "target:absent", "target:dir", "target:empty", "target:dangling")
+	h.Require("absolute-name-with-rerooted-target", "name:bad", "name:harmless", "target:file", "target:absent", "target:dir", "target:empty", "target:dangling")
 
 	vlib.Enum(h, "names-end-to-end-exhaustive", true, func(yield func(c08Name) bool) {
 		eachIncludeName(h.Pick(5, 7), h.Mine, yield)
